@@ -28,7 +28,10 @@ def gen_cases(ctx):
         for p in ps:
             for b in (["pg"] if p in PG_ONLY else B):
                 lines.append("iden %s %s %s" % (b, p, hexs(n)))
-    ctx.cov["distribution"] = {"positions": len(pos), "names": len(names), "alphabet": ALPHA}
+    for b in B:
+        for k in range(6):
+            lines.append("idenderived %s %d" % (b, k))
+    ctx.cov["distribution"] = {"positions": len(pos), "names": len(names), "alphabet": ALPHA, "derived_idens": 6}
     return lines
 
 
@@ -37,6 +40,23 @@ def subst_tokens(toks, old, new):
 
 
 def batch_oracle(ctx, lines, impl):
+    verdicts = [None] * len(lines)
+    derived = [(i, c, o) for i, (c, o) in enumerate(zip(lines, impl)) if c.startswith("idenderived ")]
+    for i, c, o in derived:
+        f = o.split(" ")
+        if len(f) != 2:
+            verdicts[i] = "derived identifier did not render: %s" % o[:80]
+        elif f[0] != f[1]:
+            verdicts[i] = "a derived identifier is quoted as %r but an Alias of the same name as %r" % (unhexs(f[0]), unhexs(f[1]))
+    keep = [(c, o) for c, o in zip(lines, impl) if not c.startswith("idenderived ")]
+    idx = [i for i, c in enumerate(lines) if not c.startswith("idenderived ")]
+    sub = _batch_oracle_positions(ctx, [c for c, _ in keep], [o for _, o in keep])
+    for i, v in zip(idx, sub):
+        verdicts[i] = v
+    return verdicts
+
+
+def _batch_oracle_positions(ctx, lines, impl):
     verdicts = [None] * len(lines)
     # baselines: the same position with the plain name
     keys = sorted(set((c.split(" ")[1], c.split(" ")[2]) for c in lines))
@@ -88,11 +108,15 @@ def batch_oracle(ctx, lines, impl):
 
 
 def describe(case):
+    if case.startswith("idenderived "):
+        return "derived Iden type #%s on %s" % (case.split(" ")[2], case.split(" ")[1])
     _, b, p, h = case.split(" ")
     return "backend=%s position=%s name=%r" % (b, p, unhexs(h))
 
 
 def classify(case, out, failure, kfs):
+    if case.startswith("idenderived "):
+        return None
     _, b, p, h = case.split(" ")
     for k in kfs:
         m = k.get("matcher", {})
@@ -104,7 +128,7 @@ def classify(case, out, failure, kfs):
 def run(ctx):
     return vlib.standard_flow(
         ctx, "base", gen_cases, batch_oracle=batch_oracle, describe=describe, model=False, classify=classify,
-        nontrivial=lambda c: any(x in c.split(" ")[3] for x in ("22", "60")),
+        nontrivial=lambda c: c.startswith("idenderived") or any(x in c.split(" ")[3] for x in ("22", "60")),
         rule="names: all strings over a quote-relevant alphabet up to the stated length + injection samples + random "
              "Unicode, at each of the identifier positions of query and schema statements (harness/src/ident.rs), 3 backends; "
              "non-trivial = the name contains a backend quote character")
